@@ -18,16 +18,17 @@ def quadOf (s : String) : Option Nat :=
 def ipsOf (s : String) : Option (List Nat) :=
   if s == "-" then some [] else (s.splitOn "+").mapM quadOf
 
-/-- `METHOD|src|host|port|ips|rdns` -/
+/-- `METHOD|src|host|port|ips|rdns[|xff]` (the optional 7th field is the X-Forwarded-For header the rig adds: with the
+default `follow_x_forwarded_for deny all` it has no influence on the decision) -/
 def reqOf (s : String) : Option Req :=
-  match s.splitOn "|" with
+  match (s.splitOn "|").take 6 with
   | [m, src, host, port, ips, rdns] =>
     match quadOf src, ipsOf ips with
     | some sv, some iv =>
       let p : Option (Option Nat) := if port == "-" then some none else (canonDec? (bytesOf port)).map some
       match p with
       | some pv =>
-        if m.isEmpty || host.isEmpty then none
+        if m.isEmpty || host.isEmpty || (s.splitOn "|").length > 7 then none
         else some (mkReq sv (bytesOf m) (bytesOf host) pv iv (if rdns == "-" then none else some (bytesOf rdns)))
       | none => none
     | _, _ => none
